@@ -119,8 +119,8 @@ def TypeOK (t : TType) : Prop :=
 
 /-- the record `encode` writes for a type and its abbreviation index -/
 def recBytes (p : TType × Nat) : List UInt8 := be32 p.1.off ++ [u8 p.1.isdst, UInt8.ofNat p.2]
-/-- … and what `struct.unpack(">lbb")` reads back -/
-def recOf (p : TType × Nat) : Int × Int × Int := (p.1.off, s8 (u8 p.1.isdst), s8 (UInt8.ofNat p.2))
+/-- … and what `struct.unpack(">lbB")` reads back -/
+def recOf (p : TType × Nat) : Int × Int × Int := (p.1.off, s8 (u8 p.1.isdst), ((UInt8.ofNat p.2).toNat : Int))
 
 theorem readTtinfo_app : ∀ (l : List (TType × Nat)) (rest : List UInt8), (∀ p ∈ l, In32 p.1.off) →
     readTtinfo l.length (l.flatMap recBytes ++ rest) = .ok (l.map recOf, rest) := by
@@ -176,7 +176,7 @@ theorem flagAt_map (done : List TType) (t : TType) (ts : List TType) (g : TType 
 
 /-- lines 613-625 applied to what `encode` wrote give the types back -/
 theorem mkTypesFrom_spec : ∀ (ts done : List TType), (∀ t ∈ done ++ ts, TypeOK t) →
-    (abbrBlock (done ++ ts)).length ≤ 128 →
+    (abbrBlock (done ++ ts)).length ≤ 256 →
     mkTypesFrom (abbrBlock (done ++ ts))
       ((done ++ ts).map (fun t => if t.isstd then (1 : UInt8) else 0))
       ((done ++ ts).map (fun t => if t.isgmt then (1 : UInt8) else 0))
@@ -188,13 +188,13 @@ theorem mkTypesFrom_spec : ∀ (ts done : List TType), (∀ t ∈ done ++ ts, Ty
       intro done hok hlen
       have ht := hok t (by simp)
       obtain ⟨_, hd1, hd2, hd0, habbr⟩ := ht
-      have hk : (abbrBlock done).length < 128 := by
+      have hk : (abbrBlock done).length < 256 := by
         rw [abbrBlock_append] at hlen
         simp only [abbrBlock, List.flatMap_cons, List.length_append, List.length_cons] at hlen ⊢
         omega
       simp only [abbrIdx, List.zip_cons_cons, List.map_cons, mkTypesFrom, recOf]
-      have e1 : s8 (UInt8.ofNat (abbrBlock done).length) = ((abbrBlock done).length : Int) := by
-        simp only [s8, toNat_ofNat]; split <;> omega
+      have e1 : (((UInt8.ofNat (abbrBlock done).length).toNat : Nat) : Int) = ((abbrBlock done).length : Int) := by
+        simp only [toNat_ofNat]; omega
       have e2 : abbrBlock (done ++ t :: ts) = abbrBlock done ++ (t.abbr ++ [0]) ++ abbrBlock ts := by
         simp [abbrBlock]
       have ih' := ih (done ++ [t]) (by simpa using hok) (by simpa using hlen)
